@@ -71,6 +71,9 @@ KNOWN_PROBES = [
     ('C01-explicit-tagged-extension-addition', 'EXPLICIT TAGS', 'T ::= SEQUENCE { a INTEGER, ..., v [6] OCTET STRING OPTIONAL }'),
     ('C01-list-default', 'AUTOMATIC TAGS', 'T ::= SEQUENCE { t SET OF INTEGER DEFAULT {} }\nU ::= SEQUENCE { u SEQUENCE OF INTEGER (0..5) DEFAULT {} }'),
     ('C01-undefined-value-reference', 'AUTOMATIC TAGS', 'Good ::= INTEGER (0..5)\nun2 Good ::= missing-val'),
+    ('C01-real-component', 'AUTOMATIC TAGS', 'T ::= SEQUENCE { r REAL }'),
+    ('C01-recursive-choice-value', 'AUTOMATIC TAGS', 'Tree ::= CHOICE { leaf BOOLEAN, more Tree }\nv Tree ::= more : leaf : TRUE'),
+    ('C01-default-under-union-constraint', 'AUTOMATIC TAGS', 'T ::= SEQUENCE { a INTEGER (1 | 2) DEFAULT 1 }'),
     ('C01-default-of-qualified-type', 'AUTOMATIC TAGS', 'Rec ::= SEQUENCE { d Mk-b.Level DEFAULT 3 }\nEND\nMk-b DEFINITIONS AUTOMATIC TAGS ::= BEGIN\nLevel ::= INTEGER (0..9)'),
 ]
 
@@ -220,6 +223,11 @@ def build_cases(ck):
                 % (k, k, k, k, k, rng.randint(-9, 10 ** 12), k, k, k, k, k, k, k, k, k))
         cases.append({'op': 'compile', 'sources': ['Mq%d DEFINITIONS AUTOMATIC TAGS ::= BEGIN\n%s\nEND\n' % (k, body)],
                       'config': dict(config_of(rng), no_std_compliant_bindings=(k % 2 == 0)), 'text': True, '_fam': 'choice-values', '_tags': [], '_known': None})
+    # every component has a DEFAULT (the type then gets `impl Default`), under type names whose snake case depends on where it is taken from
+    for k, tn in enumerate(['PDU-Info', 'A-1', 'HTTPReq-v2', 'Plain', 'X509Cert', 'ab-C-d' if False else 'Ab-C-D']):
+        body = ('%s ::= SEQUENCE { a BOOLEAN DEFAULT TRUE, b INTEGER (0..9) DEFAULT 5, c-d IA5String DEFAULT "x" }\n'
+                'Set%d ::= SET { only-one BOOLEAN DEFAULT FALSE }' % (tn, k))
+        add(['Md%d DEFINITIONS AUTOMATIC TAGS ::= BEGIN\n%s\nEND\n' % (k, body)], 'all-default')
     # module-qualified references (Mod.Type) that are not also imported by name, in every position a type can take; module names
     # with capital humps and digits, so that the path is built from the same mangling as the `pub mod` line
     for k, geo in enumerate(['Geo-Defs', 'GeoV2Defs', 'X509v3-Ext', 'ABCDefs9']):
